@@ -45,11 +45,12 @@ structure Facts where
   oneWait : Bool         -- Cmd.Wait has a single call site
   startGuarded : Bool    -- the asynchronously started listening stream is refused once close() ran
   closeAny : Bool        -- the client's Close() closes the transport whatever the client's state (no guard but `transport != nil`)
+  answerBound : Bool     -- the POST that carries the client's answer to a request of the server is made with a context derived from the stream's (Close() cancels it)
   deriving DecidableEq, Repr
 
 /-- Every fact present (the good corner of the family; witnesses switch single facts off). -/
 def Facts.allGood : Facts :=
-  ⟨true, true, true, true, true, true, true, true, true, true, true, true, true, true⟩
+  ⟨true, true, true, true, true, true, true, true, true, true, true, true, true, true, true⟩
 
 /-- Run-time configuration of a scenario. -/
 structure Cfg where
@@ -96,6 +97,8 @@ structure St where
   token : Bool := false       -- the Cmd's single context result has not been received yet (exactly one Wait can finish)
   starter : Bool := false     -- the goroutine that will open the listening stream has not run yet
   stream : Bool := false      -- the listening stream is open
+  answerPost : Bool := false  -- a POST carrying the client's answer to a request of the server is in flight (with the goroutine
+                              -- that performs it — the stream's reader, synchronously — and its connection)
 
 def init (c : Cfg) : St :=
   { reader := c.t.shared, child := c.t = .stdio, watcher := c.t = .stdio, token := c.t = .stdio,
@@ -118,6 +121,8 @@ inductive Ev
   | closeBegin
   | closeEnd
   | starterRun
+  | srvRequest                     -- a request of the server arrives on the stream: the reader starts the POST with the client's answer
+  | answerDone                     -- the peer responds to that POST (or its own 30 s timer fires)
   | complete (c : Nat) (k : Case)
   deriving DecidableEq, Repr
 
@@ -185,7 +190,8 @@ def step (f : Facts) (cfg : Cfg) (s : St) : Ev → Option St
   | .readerExit =>
     if s.reader && (s.streamDown || s.closing) then
       if f.endCloses && cfg.t = .sse then
-        some { s with reader := false, closing := true, closed := true, streamDown := true, calls := fun d => closeChans (s.calls d) }
+        some { s with reader := false, closing := true, closed := true, streamDown := true, calls := fun d => closeChans (s.calls d),
+                      answerPost := s.answerPost && !f.answerBound }
       else some { s with reader := false }
     else none
   | .procExit => if s.child then some { s with child := false, streamDown := true } else none
@@ -204,16 +210,21 @@ def step (f : Facts) (cfg : Cfg) (s : St) : Ev → Option St
     if s.closing then none
     else if !(f.closeAny || cfg.connected) then none   -- Close() returns at its state guard: nothing is closed
     else match cfg.t with
-      | .sse => some { s with closing := true, streamDown := true }
+      | .sse => some { s with closing := true, streamDown := true, answerPost := s.answerPost && !f.answerBound }
       | .stdio => some { s with closing := true, tctx := true, child := false, streamDown := true,
-                                closeWaiter := !f.oneWait && s.watcher }
-      | _ => some { s with closing := true, stream := false }
+                                closeWaiter := !f.oneWait && s.watcher, answerPost := s.answerPost && !f.answerBound }
+      | _ => some { s with closing := true, stream := false, answerPost := s.answerPost && !f.answerBound }
   | .closeEnd =>
     if s.closing && !s.closed then
       some { s with closed := true, calls := if cfg.t.shared then (fun d => closeChans (s.calls d)) else s.calls }
     else none
   | .starterRun =>
     if s.starter then some { s with starter := false, stream := !(f.startGuarded && s.closing) } else none
+  | .srvRequest =>
+    if !s.closing && !s.answerPost && ((cfg.t.shared && s.reader && !s.streamDown) || (cfg.t.http && s.stream)) then
+      some { s with answerPost := true }
+    else none
+  | .answerDone => if s.answerPost then some { s with answerPost := false } else none
   | .complete c k =>
     let cl := s.calls c
     if waiting cl && ready f cfg s cl k then
@@ -234,10 +245,11 @@ def quiescent (f : Facts) (cfg : Cfg) (s : St) : Prop :=
   step f cfg s .readerExit = none ∧ step f cfg s .watcherExit = none ∧ step f cfg s .closeWaitExit = none ∧
   s.starter = false
 
-/-- The resource ledger is zero: no response body held, no reader, no child, nobody in Cmd.Wait, no listening stream. -/
+/-- The resource ledger is zero: no response body held, no reader, no child, nobody in Cmd.Wait, no listening stream, no
+    answer POST in flight. -/
 def ledgerZero (s : St) : Prop :=
   (∀ c, (s.calls c).body = false) ∧ s.reader = false ∧ s.child = false ∧ s.watcher = false ∧ s.closeWaiter = false ∧
-  s.stream = false
+  s.stream = false ∧ s.answerPost = false
 
 /-! ### What ends a call (the property's list) -/
 
@@ -345,12 +357,14 @@ structure Tables where
   bodies : List BodySite
   selects : List SelectSite
   chanClosers : List (Client × Text)  -- functions that `close` a pending channel (made for / ranged over a pending table)
+  answerBound : List Client           -- clients whose answer POST (to a request of the server) is made with a context derived from the stream's
   closeUnguarded : List Client        -- clients whose public `Close()` reaches `transport.close()` under no condition but `transport != nil`
   waitSites : List Text               -- functions of the stdio transport that call `Cmd.Wait`
   readerCloses : Bool                 -- `readSSE` ends with an unconditional `t.close()`
   watcherCancels : Bool               -- `processWatcher` calls `t.cancel()`
   startGuarded : Bool                 -- `establishGetSSE[Connection]` returns early on a closed flag
   startBounded : Bool                 -- legacy SSE `start`: the stream request ends with the caller's context while it is being established
+  backoffCtx : Bool                   -- `retry.Execute` waits between two attempts in a select that has the caller's context case (and never sleeps)
   startSelStream : Bool               -- legacy SSE `start`: the wait for the endpoint event has the case of the stream's context (Close() cancels it)
   deriving Repr
 
@@ -397,11 +411,11 @@ def factsOf (tb : Tables) (t : Transport) : Facts :=
   let sites := tb.bodies.filter (fun x => x.client = cl && x.obtains)
   let ins := tb.inserts.filter (fun x => x.client = cl)
   let reqCtx := !(sendSite tb t).isEmpty && (sendSite tb t).all (·.reqCtx)
-  { selCtx := match t with
+  { selCtx := tb.backoffCtx && (match t with   -- every wait on the call path: the back-off between two attempts of a retrying client, …
       | .streamJson => reqCtx
       | .streamSse => reqCtx && selHas tb t (·.ctx)
-      | .sse => reqCtx && selHas tb t (·.ctx) && tb.startBounded   -- both stages of the first call: `start`, then the wait for the answer
-      | .stdio => selHas tb t (·.ctx),
+      | .sse => reqCtx && selHas tb t (·.ctx) && tb.startBounded   -- … both stages of the first call: `start`, then the wait for the answer
+      | .stdio => selHas tb t (·.ctx)),
     selTctx := t = .stdio && selHas tb t (·.tctx),
     selClosed := t.shared && selHas tb t (·.recv) && (t != .sse || tb.startSelStream),
     selTimeout := t = .stdio && selHas tb t (·.timer),
@@ -417,7 +431,8 @@ def factsOf (tb : Tables) (t : Transport) : Facts :=
     exitCancels := t != .stdio || tb.watcherCancels,
     oneWait := t != .stdio || tb.waitSites.length ≤ 1,
     startGuarded := !t.http || tb.startGuarded,
-    closeAny := tb.closeUnguarded.any (· = cl) }
+    closeAny := tb.closeUnguarded.any (· = cl),
+    answerBound := t = .stdio || tb.answerBound.any (· = cl) }
 
 /-! ### Server-issued requests (`Server.SendRequest / ListRoots` of the three servers)
 
@@ -445,7 +460,7 @@ def srvFacts (ins : List SrvInsertSite) (sv : Server) : Facts :=
 /-- The region of the family in which the property holds for transport `t`. -/
 def Facts.goodFor (f : Facts) (t : Transport) : Bool :=
   f.selCtx && f.bodyClosed && f.oneCloser && f.deleteDeferred && f.startGuarded && f.endCloses && f.exitCancels && f.oneWait &&
-  f.closeAny &&
+  f.closeAny && f.answerBound &&
   (!t.shared || (f.hasTable && f.selClosed && f.recvOk)) &&
   (t != .stdio || (f.selTctx && f.selTimeout))
 
